@@ -122,8 +122,9 @@ def verdict_root_stub(c, success="true", prec="zero", log=None, max_fail=2):
     return stub
 
 
-def ctrl_stub(c, integrator, log=None, lo=0.2, hi=2.0, max_redo=None, fixed=None):
-    """contract stub for integrator.update_timestep: returns (corr*dT, corr < 0.81) for an arbitrary corr in (lo, hi).
+def ctrl_stub(c, integrator, log=None, lo=0.2, hi=2.6, max_redo=None, fixed=None, fixed_redo=False):
+    """contract stub for integrator.update_timestep: returns (corr*dT, corr < 0.81) for an arbitrary corr in (lo, hi)
+    (the real controller's corr = 1 + arctan(0.8*c - 1), c >= 0, lies in (0.2146, 2.5708): C05-b ties these constants to the real code).
     max_redo bounds the number of rejections the stub may issue in total (unwinding bound)."""
     state = dict(n=0, redo=0)
 
@@ -133,8 +134,8 @@ def ctrl_stub(c, integrator, log=None, lo=0.2, hi=2.0, max_redo=None, fixed=None
         if fixed is not None:
             dT = integrator.solver_dict["timestep"]
             if log is not None:
-                log.append(dict(i=i, corr=fixed, dT=dT, redo=False))
-            return fixed * dT, False
+                log.append(dict(i=i, corr=fixed, dT=dT, redo=fixed_redo))
+            return fixed * dT, fixed_redo
         corr = c.real("corr%d" % i)
         c.assume(corr > lo)
         c.assume(corr < hi)
